@@ -320,6 +320,13 @@ namespace options
         {
             if (option.second->matches(*it))
             {
+                if (it->is_short() && it->as_short_list().size() > 1)
+                {
+                    raise<parsing_error>("the short name of option ", option.second->name(),
+                                         " cannot be bundled with other short names: '",
+                                         it->data(), "'");
+                }
+
                 if (it->has_value())
                 {
                     option.second->update_value(*it);
@@ -353,14 +360,26 @@ namespace options
         // a given user_input might match more than one toggle, e.g., -ab matches a and b.
         // Therefore, we need to keep checking all toggles, even after one match.
         auto match_found = false;
+        std::size_t matched_letters = 0;
 
         for (auto& option : get_all_toggles())
         {
             if (option.second->matches(in))
             {
+                if (in.is_short())
+                {
+                    matched_letters += in.as_short_list().count(option.second->short_name());
+                }
+
                 option.second->update_value(in);
                 match_found = true;
             }
+        }
+
+        if (match_found && in.is_short() && matched_letters != in.as_short_list().size())
+        {
+            raise<parsing_error>("Argument '", in.data(),
+                                 "' contains a short name that is not a toggle.");
         }
 
         return match_found;
